@@ -124,6 +124,12 @@ class Check:
         for pr, tp, sp, profile, seed in procs:
             _, err = pr.communicate()
             jp = tp + ".journal"
+            if pr.returncode == 4 and "HANG" in err.decode():
+                self.hung(jp, profile, seed, err.decode())
+                for f in (tp, sp, jp):
+                    if os.path.exists(f):
+                        os.unlink(f)
+                continue
             if pr.returncode != 0:
                 self.crashed(jp, profile, seed, err.decode())
                 for f in (tp, sp, jp):
@@ -175,6 +181,42 @@ class Check:
         trace, out = execute_replay("\n".join(variants) + "\n", "enum_%s" % self.prop)
         self.ev["schedule_enumeration"] = {"episodes": episodes, "schedules_forced": sum(1 for l in variants if l.startswith("H "))}
         return [(trace, out, None, "conc-enumeration")]
+
+    def hung(self, journal, profile, seed, err):
+        """A call into the library did not return (the harness's watchdog ended the process): a deadlock.
+        The journal holds the history; it is shrunk by re-running with a short watchdog."""
+        text = open(journal).read() if os.path.exists(journal) else ""
+        ops = [l for l in text.splitlines() if l.startswith("O ")]
+        if not ops or "C12" not in set(self.cfg.get("monitors", [])):
+            self.problems.append(("infra", "drive hung (profile %s seed %d): a call into the library did not return: %s" % (profile, seed, err[-300:])))
+            return
+        head = [l for l in text.splitlines() if l.startswith("H ") or l.startswith("L ")]
+        sig = "hang:" + re.sub(r"[0-9]+", "N", ops[-1].split()[1])
+        if any(v.get("signature") == sig for v in self.violations):
+            return
+        env = dict(ENV); env["VERIF_WATCHDOG_SECS"] = "6"
+        def hangs(opl):
+            rp = os.path.join(WORK, "hang_%d.ops" % os.getpid())
+            open(rp, "w").write("\n".join(head + opl + ["E"]) + "\n")
+            p = run([DRIVE_BIN, "--replay", rp, "--out", os.devnull], env=env)
+            os.unlink(rp)
+            return p.returncode == 4
+        confirmed = hangs(ops)
+        if confirmed:
+            i, budget = 0, 40
+            while i < len(ops) - 1 and budget > 0:
+                budget -= 1
+                cand = ops[:i] + ops[i + 1:]
+                if hangs(cand):
+                    ops = cand
+                else:
+                    i += 1
+        body = "\n".join(head + ops + ["E"]) + "\n"
+        path = self.save_replay("%s-%s.ops" % (self.prop, hashlib.sha1(sig.encode()).hexdigest()[:10]),
+                                "# C12: the last call of this history never returned (deadlock; the harness's watchdog ended the process)\n# replay: tools/replay.sh <this file>  (%s)\n%s"
+                                % ("re-run confirmed the hang" if confirmed else "hang NOT reproduced on re-run", body))
+        self.problems.append(("monitor", "a call into the library did not return (profile %s seed %d)" % (profile, seed)))
+        self.violations.append({"replay": path, "signature": sig, "why": "deadlock"})
 
     def crashed(self, journal, profile, seed, err):
         """The driver process died (a panic that cannot unwind aborts it): the journal holds the history."""
@@ -389,6 +431,20 @@ class Check:
         if net_under_lock and "C12" in monitors:
             path = self.save_replay("%s-net-under-lock.txt" % self.prop, "%d network callbacks were entered while the calling thread held the state lock\n" % net_under_lock)
             self.violations.append({"replay": path, "signature": "net-under-lock", "why": "network callback under the state lock"})
+        if self.cfg.get("restart_fidelity"):
+            import restart_fidelity
+            n = self.cfg["restart_fidelity"][self.tier]
+            text = "\n".join(r[0] for r in results if r[0] and not r[3].startswith("corpus"))
+            checked, bad, blocks = restart_fidelity.campaign(text, n)
+            cov["restart_fidelity"] = {"histories_rerun_with_one_process_per_launch": checked, "differing": len(bad)}
+            if bad:
+                hid, (i, op, a, b) = bad[0]
+                path = self.save_replay("%s-restart-fidelity.ops" % self.prop,
+                                        "# the in-process restart of the harness is not faithful: after call %d (%s)\n# in-process : %s\n# fresh procs: %s\n# replay: python3 tools/restart_fidelity.py <trace containing this history>\n%s"
+                                        % (i, op[:80], a[:300], b[:300], make_replay(blocks[hid])))
+                self.problems.append(("correspondence", "a history with restarts behaves differently when every launch runs in a fresh process (%d of %d histories; first: %s call %d): state outlives hooks::reset_config() or is lost by it; replay %s" % (len(bad), checked, hid, i, path)))
+        if self.cfg.get("runtime_c12"):
+            cov.update(props.special.c12_runtime(self, results))
         cov.update(evaluations=hist, distinct_nontrivial=len(distinct),
                    rule="histories generated by harness/src/gen.rs from VERIF_SEED (profiles %s); distinct = distinct op sequences, non-trivial = at least 3 operations" % [p for p, _ in self.cfg["campaign"][self.tier]],
                    samples=samples, steps_compared=steps, traces_validated_against_impl=hist,
